@@ -5,6 +5,7 @@ import (
 	"archive/zip"
 	"encoding/xml"
 	"io"
+	"path"
 	"path/filepath"
 	"strings"
 )
@@ -281,7 +282,9 @@ func ooxmlMainPartFormat(zr *zip.Reader) Format {
 			if !strings.HasSuffix(rel.Type, "/officeDocument") {
 				continue
 			}
-			target := strings.TrimPrefix(rel.Target, "/")
+			// The target is a reference relative to the package root: resolve
+			// "." and ".." segments before looking at its first segment.
+			target := strings.TrimPrefix(path.Clean("/"+rel.Target), "/")
 			switch {
 			case strings.HasPrefix(target, "word/"):
 				return DOCX
